@@ -37,6 +37,13 @@ CLAIMED = {
          'Global optimisers (SHGO/DE) and flexsolve are oracles.',
          'Trusted: Coq kernel + vm_compute; translator tr/C15_kernels.py; hand-written coq/C15/{Base,Model}.v; harness props/C15.py; no axioms.',
          'DESIGN.md section 3 C15, section 8'),
+ 'C09': ('Coq proof over a store of sparse vectors / logical vectors / sparse arrays: representation invariant for every operation history, refinement of dense NumPy semantics (Dense.v) for the arithmetic/comparison kernels, frames, rejections + correspondence (random histories, exhaustive small scope) with NumPy run on the dense images',
+         'history_invariant (stored entries are exactly the non-zeros after ANY history of modelled operations over all object kinds), frame/history_frame, '
+         'rejected_unchanged, arithmetic/neg/abs/comparison refinement incl. broadcast branches, in-place = binary, history_refines for the float-vector '
+         'fragment. PARTIAL: division broadcast branches, logical kernels, get/set, reductions and array lifts are covered by invariant/frame theorems and '
+         'the correspondence, not by refinement theorems; 8 clauses refuted on the faithful model (deviations from NumPy kept by the source) -> known findings with Coq witnesses.',
+         'Trusted: Coq kernel + vm_compute; hand-written model coq/C09/{Model,Dense}.v; harness props/C09.py; NumPy itself is the reference oracle in the harness; no axioms.',
+         'DESIGN.md section 3 C09, Appendix D, section 8'),
  'C10': ('Coq proof of cache coherence (lookup = pure classification for every lookup history), get/set refinement of dense positional access, name resolution + correspondence with histories that fill and evict both bounded caches',
          'lookup_pure by a cache-coherence invariant over unbounded histories (100-entry FIFO shared with index_overlap, 500/100 class-level cache), '
          'lookup_total, get_refines (chem and material, all key forms), set_get family with frames, group_scalar, names_single.',
@@ -124,7 +131,7 @@ CLAIMED = {
          'Trusted: Coq kernel + vm_compute; models coq/C03/Model.v, coq/C04/Model.v; harness props/C04.py; flexsolve contracts; no axioms.',
          'DESIGN.md section 3 C04, section 8'),
 }
-NOT_YET = 'not claimed yet: model and proofs under construction (see DESIGN.md section 8 for status)'
+NOT_YET = 'not claimed yet: model and proofs under construction (see DESIGN.md section 8 for status)'  # unused once every property is claimed
 
 def main():
     checks = []
